@@ -21,7 +21,7 @@ PORTS = [None, 80, 443, 81, 0]
 PATHS = ["", "/", "/a", "/A", "/a/", "/a%2Fb", "/a%2fb", "/a b", "/a/../b"]
 QUERIES = ["", "q", "q=1", "q=1&r", "Q", "a+b", "a%20b", "a b", "\xe9", "%7e", "%c3%a9"]
 FRAGS = ["", "f", "F", "f%20", "f g", "\xe9", "%7e"]
-ROUTES = ["str", "enc", "build", "pickle", "restore", "restore-hashed", "with_path", "origin-join", "build-enc", "build-enc-split", "split", "pickled-original"]
+ROUTES = ["query-none", "str", "enc", "build", "pickle", "restore", "restore-hashed", "with_path", "origin-join", "build-enc", "build-enc-split", "split", "pickled-original"]
 
 
 def spec():
@@ -90,6 +90,13 @@ def make(Y, sp):
     if r == "restore":
         u = URL(s)
         return u.with_fragment("zzz").with_query("zz=1").with_query(u.query).with_fragment(u.fragment or None)
+    if r == "query-none":
+        u = URL(s)
+        if u.raw_query_string:
+            return u.with_query("zz=1").with_query(u.query)
+        v = u.with_query("zz=1").with_query(None)
+        w = u.update_query({"zz": "1"}).update_query(None)
+        return v if len(s) % 2 else w
     if r == "restore-hashed":
         # the same detour, but every intermediate object is hashed/compared/ordered first (memoised values must not leak into derived URLs)
         u = URL(s)
